@@ -20,6 +20,8 @@ import (
 	"fmt"
 	"testing"
 
+	"k8s.io/apimachinery/pkg/util/sets"
+
 	corev1 "k8s.io/api/core/v1"
 	"k8s.io/apimachinery/pkg/api/resource"
 	metav1 "k8s.io/apimachinery/pkg/apis/meta/v1"
@@ -38,6 +40,7 @@ func c05BigNode() fwktype.NodeInfo {
 		corev1.ResourceMemory:           *resource.NewQuantity(1<<62, resource.BinarySI),
 		corev1.ResourceEphemeralStorage: *resource.NewQuantity(1<<62, resource.BinarySI),
 		c05GPUName:                      resource.MustParse("100000"),
+		c05ExtName:                      resource.MustParse("100000000"),
 		corev1.ResourcePods:             resource.MustParse("100000"),
 	}}}
 	ni := framework.NewNodeInfo()
@@ -55,7 +58,7 @@ func c05Unit(n corev1.ResourceName) resource.Quantity {
 func TestVerifC05Fit(t *testing.T) {
 	node := c05BigNode()
 	kit.Run(t, kit.Config{Property: "C05", Unit: "fit", Quick: 60000, Thorough: 1500000,
-		Rule: "restricted reservation (random reserved resources, optional pods capacity, restricted options incl. lists that are disjoint from / partially overlap / duplicate / mis-case the reserved resources, edited on the live reservation in 30%, inner reserved amount) with 0-4 assigned pods added through AddAssignedPod; 75%: victims = random subset of the assigned pods (preemptible = their summed requests + pod count); 25%: victims = subset of the assigned pods plus a pod that is only nominated to the reservation, sized so that in 1..all reserved resources preemptible = allocated + 1 unit or + a lot (a third of these with no assigned pod at all); pod request biased to remaining-1 / remaining / remaining+1 unit / far above in one reserved dimension (remaining = reserved - held back - max(0, allocated - preemptible)); 40% of the calls go through fitsNodeAndReservation on a node that always fits; distinct = (#dims, pods capacity, inner reserved, #assigned, #victims, victim mode, excess class, entry point, boundary class, accepted, fits); non-trivial = a request within one unit of the remaining amount with at least one assigned pod or with a preemptible amount above the allocated amount"},
+		Rule: "restricted reservation (random reserved resources, optional pods capacity 0-4, amounts from 0 / 1m up to 2^62, five resource names, held-back amount also as a cpu list, 14% with extended resources ignored by plugin args (skipped by the oracle), pods with init containers / overhead, restricted options incl. lists that are disjoint from / partially overlap / duplicate / mis-case the reserved resources, edited on the live reservation in 30%, inner reserved amount) with 0-8 assigned pods added through AddAssignedPod; 75%: victims = random subset of the assigned pods (preemptible = their summed requests + pod count); 25%: victims = subset of the assigned pods plus a pod that is only nominated to the reservation, sized so that in 1..all reserved resources preemptible = allocated + 1 unit or + a lot (a third of these with no assigned pod at all); pod request biased to remaining-1 / remaining / remaining+1 unit / far above in one reserved dimension (remaining = reserved - held back - max(0, allocated - preemptible)); 40% of the calls go through fitsNodeAndReservation on a node that always fits; distinct = (#dims, pods capacity, inner reserved, #assigned, #victims, victim mode, excess class, entry point, boundary class, accepted, fits); non-trivial = a request within one unit of the remaining amount with at least one assigned pod or with a preemptible amount above the allocated amount"},
 		func(c *kit.Case) {
 			r := c.R
 			alloc := c05GenRequests(r, []int{90, 75, 35, 15})
@@ -65,12 +68,15 @@ func TestVerifC05Fit(t *testing.T) {
 			podsCap := int64(-1)
 			if r.Pct(35) {
 				podsCap = int64(r.Range(1, 4))
+				if r.Pct(6) {
+					podsCap = 0 // a reservation that holds no pod slot at all
+				}
 				alloc[corev1.ResourcePods] = *resource.NewQuantity(podsCap, resource.DecimalSI)
 			}
 			f := false
 			res := &schedulingv1alpha1.Reservation{
 				ObjectMeta: metav1.ObjectMeta{Name: "r", UID: "r-uid", Annotations: map[string]string{}},
-				Spec: schedulingv1alpha1.ReservationSpec{Template: c05Template(alloc), Owners: []schedulingv1alpha1.ReservationOwner{{}},
+				Spec: schedulingv1alpha1.ReservationSpec{Template: c05TemplateR(r, alloc), Owners: []schedulingv1alpha1.ReservationOwner{{}},
 					AllocateOnce: &f, AllocatePolicy: schedulingv1alpha1.ReservationAllocatePolicyRestricted},
 				Status: schedulingv1alpha1.ReservationStatus{Phase: schedulingv1alpha1.ReservationAvailable, NodeName: "n0", Allocatable: alloc.DeepCopy()},
 			}
@@ -86,10 +92,35 @@ func TestVerifC05Fit(t *testing.T) {
 						inner[n] = q
 					}
 				}
-				c05SetInnerReserved(res, inner)
+				if r.Pct(20) { // the held-back CPUs given as a cpu list
+					c05SetInnerReservedCPUs(res, inner, kit.Pick(r, []string{"0", "0-1", "1,3", "0-2,5"}))
+					c.Count("fit_held_back_as_cpu_list", 1)
+				} else {
+					c05SetInnerReserved(res, inner)
+				}
+				inner = c05InnerReserved(res.Annotations) // the oracle reads the object
+				if inner == nil {
+					inner = corev1.ResourceList{}
+				}
+			}
+			// plugin args: extended resources (by name or by group) the fit check is configured to ignore; the
+			// statement does not decide those dimensions, the oracle skips them
+			var ignoredResources, ignoredGroups sets.Set[string]
+			ignoredDim := map[corev1.ResourceName]bool{}
+			switch r.Weighted(86, 5, 5, 4) {
+			case 1:
+				ignoredResources = sets.New(string(c05GPUName))
+				ignoredDim[c05GPUName] = true
+			case 2:
+				ignoredGroups = sets.New("example.com")
+				ignoredDim[c05GPUName] = true
+			case 3:
+				ignoredResources = sets.New(string(c05ExtName), "unrelated.io/x")
+				ignoredGroups = sets.New("unrelated.io")
+				ignoredDim[c05ExtName] = true
 			}
 			ri := frameworkext.NewReservationInfo(res)
-			k := r.Weighted(25, 30, 25, 15, 5)
+			k := r.Weighted(22, 27, 22, 14, 6, 3, 2, 2, 2)
 			// victim mode: "subset" = victims are assigned pods; "above" = a nominated-only victim makes the
 			// preemptible amount exceed the allocated amount
 			mode := "subset"
@@ -109,6 +140,7 @@ func TestVerifC05Fit(t *testing.T) {
 				rl := c05GenRequests(r, []int{80, 65, 30, 15})
 				p := &corev1.Pod{ObjectMeta: metav1.ObjectMeta{Namespace: "default", Name: fmt.Sprintf("a%d", i), UID: types.UID(fmt.Sprintf("a-%d", i))},
 					Spec: corev1.PodSpec{NodeName: "n0", Containers: c05Containers(r, rl)}}
+				c05Shape(r, &p.Spec)
 				ri.AddAssignedPod(p)
 				assigned = append(assigned, &apod{uid: p.UID, req: c05PodRequests(p)})
 			}
@@ -276,22 +308,38 @@ func TestVerifC05Fit(t *testing.T) {
 				}
 			}
 			pod := &corev1.Pod{ObjectMeta: metav1.ObjectMeta{Namespace: "default", Name: "incoming", UID: "incoming"}, Spec: corev1.PodSpec{Containers: c05Containers(r, req)}}
+			if r.Pct(10) {
+				c05Shape(r, &pod.Spec)
+			}
 			req = c05PodRequests(pod)
+			// amounts near the 64-bit range: the node part of the check is skipped (only the reservation is under test)
+			huge := false
+			limit := *resource.NewQuantity(1<<60, resource.BinarySI)
+			for _, rl := range []corev1.ResourceList{req, preemptible, alloc} {
+				for _, q := range rl {
+					if q.Cmp(limit) > 0 {
+						huge = true
+					}
+				}
+			}
+			if huge {
+				c.Count("fit_with_huge_amounts", 1)
+			}
 
 			entry := "fitsReservation"
 			var reasons []string
 			accepted := false
 			if r.Pct(60) {
-				reasons = fitsReservation(req, ri, preemptible, r.Bool(), nil, nil)
+				reasons = fitsReservation(req, ri, preemptible, r.Bool(), ignoredResources, ignoredGroups)
 				accepted = len(reasons) == 0
 			} else {
 				entry = "fitsNodeAndReservation"
-				skipNode := r.Bool()
+				skipNode := r.Bool() || huge
 				var preemptibleRes fwktype.Resource = dummyResource
 				if preemptible != nil {
 					preemptibleRes = framework.NewResource(preemptible)
 				}
-				byNode, byRsv := fitsNodeAndReservation(framework.NewResource(req), nil, nil, preemptibleRes, ri.GetAvailable(), req, preemptible, pod, ri, node, 1, r.Bool(), skipNode, nil, nil)
+				byNode, byRsv := fitsNodeAndReservation(framework.NewResource(req), nil, nil, preemptibleRes, ri.GetAvailable(), req, preemptible, pod, ri, node, 1, r.Bool(), skipNode, ignoredResources, ignoredGroups)
 				if len(byNode) > 0 {
 					c.Harness("the big node did not fit: %v", byNode)
 				}
@@ -305,6 +353,10 @@ func TestVerifC05Fit(t *testing.T) {
 			for _, n := range dimList {
 				rq, has := req[n]
 				if !has || rq.IsZero() {
+					continue
+				}
+				if ignoredDim[n] {
+					c.Count("fit_dimension_ignored_by_plugin_args", 1)
 					continue
 				}
 				sum := c05Add(used[n], rq)
@@ -328,7 +380,7 @@ func TestVerifC05Fit(t *testing.T) {
 			// note only: the pod-level reading when a nominated-only victim is mixed with assigned pods that stay
 			overStaying := false
 			for _, n := range dimList {
-				if rq, has := req[n]; has && !rq.IsZero() {
+				if rq, has := req[n]; has && !rq.IsZero() && !ignoredDim[n] {
 					if sum := c05Add(staying[n], rq); sum.Cmp(c05Sub(alloc[n], inner[n])) > 0 {
 						overStaying = true
 					}
@@ -350,6 +402,12 @@ func TestVerifC05Fit(t *testing.T) {
 			}
 			if victims > 0 {
 				c.Count("fit_with_victims", 1)
+			}
+			if podsCap == 0 {
+				c.Count("fit_pods_capacity_zero", 1)
+			}
+			if k >= 5 {
+				c.Count("fit_with_5_to_8_assigned_pods", 1)
 			}
 			c.Count("fit_options_"+optClass, 1)
 			if optClass == "disjoint" {
@@ -389,12 +447,15 @@ func TestVerifC05Fit(t *testing.T) {
 					c.Count("note_accepted_over_pods_that_stay_with_nominated_victim", 1)
 				}
 			}
-			c.Seen(len(dimList), podsCap >= 0, len(inner) > 0, k, victims, mode, excess, entry, boundary, accepted, fits && fitsInner && fitsPods, optClass, optionsUpdated)
+			c.Seen(len(dimList), podsCap, len(inner) > 0, minInt(k, 5), minInt(victims, 3), len(ignoredDim) > 0, huge, mode, excess, entry, boundary, accepted, fits && fitsInner && fitsPods, optClass, optionsUpdated)
 			if accepted && !fits {
 				c.Fail("C05/fit/over-reserved", "%s accepted a pod that does not fit the restricted reservation:%s", entry, why)
 			}
 			if accepted && !fitsInner {
 				c.Fail("C05/fit/over-reserved-minus-held-back", "%s accepted a pod that does not fit what the restricted reservation keeps allocatable:%s", entry, why)
+			}
+			if accepted && !fitsPods && int64(k)-victimPods < 0 {
+				c.Fail("C05/fit/over-pods/preempted-pod-count-above-assigned", "%s accepted a pod beyond the reservation's pod capacity (more victims than assigned pods: a nominated-only victim was credited as a free pod slot):%s", entry, why)
 			}
 			if accepted && !fitsPods {
 				c.Fail("C05/fit/over-pods", "%s accepted a pod beyond the reservation's pod capacity:%s", entry, why)
@@ -418,6 +479,8 @@ func c05Lot(n corev1.ResourceName) resource.Quantity {
 		return resource.MustParse("1000")
 	case c05GPUName:
 		return resource.MustParse("100")
+	case c05ExtName:
+		return resource.MustParse("100000")
 	default:
 		return resource.MustParse("9007199254740993")
 	}
